@@ -111,6 +111,29 @@ def some_name(rng, v, bogus=0.1):
     return case_variant(rng, n) if rng.random() < 0.5 else n
 
 
+OPT_CARRIED = list(sim.OPT_MS + sim.OPT_INT + sim.OPT_BOOL + sim.OPT_TRUTH)      # option names the model's watcher record carries
+OPT_OTHER = ["working_dir", "uid", "gid", "shell", "shell_args", "env", "cmd", "args", "executable", "use_sockets", "copy_env",
+             "stdout_stream_conf", "stderr_stream_conf", "max_age_variance", "close_child_stdin", "close_child_stdout",
+             "close_child_stderr"]                                                # option names of the real watcher only
+NOT_OPTS = ["nosuch", "autostart", "hooks", "name", "NUMPROCESSES", "numprocesses ", "", "n", 5, None, True, 1.5,
+            ["numprocesses"], {"numprocesses": 1}]
+
+
+def some_keys(rng):
+    """the `keys` of a `get` request: option names (carried by the model or not, repeated or not), with an item that is no
+    option name now and then; an empty list; or a value of the wrong type (string, object, number, null)"""
+    r = rng.random()
+    if r < 0.7:
+        keys = [rng.choice(OPT_CARRIED) if rng.random() < 0.75 else rng.choice(OPT_OTHER) for _ in range(rng.choice([1, 1, 2, 3, 5]))]
+        if rng.random() < 0.2:
+            keys.insert(rng.randint(0, len(keys)), rng.choice(NOT_OPTS))
+        return keys
+    if r < 0.78:
+        return []
+    return rng.choice(["numprocesses", "", "x", None, 5, 0, True, False, 1.5, {"numprocesses": 1}, {"nosuch": 1, "cmd": 2}, {},
+                       {"cmd": None, "numprocesses": None}])
+
+
 def some_pid(rng, v, name=None):
     r = rng.random()
     own = v.pids.get(name, []) if name in v.pids else v.all_pids
@@ -185,7 +208,9 @@ def gen_request(rng, v, rid, profile):
         opts = {}
         for _ in range(rng.choice([1, 1, 2, 3])):
             k = rng.choice(["numprocesses", "numprocesses", "graceful_timeout", "warmup_delay", "stop_signal",
-                            "stop_children", "send_hup", "uid", "bogus_key", "respawn", "max_retry", "cmd", "cmd"])
+                            "stop_children", "send_hup", "uid", "bogus_key", "respawn", "max_retry", "cmd", "cmd"] +
+                           # profiles whose oracles do not read max_age from the configuration also change it at run time
+                           (["max_age", "singleton"] if profile.get("set_extra") else []))
             opts[k] = {"numprocesses": rng.choice([0, 1, 2, 3, 5, -2, "3", 2.5, True]),
                        "graceful_timeout": rng.choice([0, 0.1, 0.3, 0.5, 2, "x"]),
                        "warmup_delay": rng.choice([0, 0.1, 0.3, None]),
@@ -194,7 +219,11 @@ def gen_request(rng, v, rid, profile):
                        "send_hup": rng.choice([True, False, 1]),
                        "uid": rng.choice([0, "root", "nosuchuser-xyz", 987654, 1.5]),
                        "bogus_key": 1, "respawn": rng.choice([True, False, "no"]),
-                       "max_retry": rng.choice([1, 3, "x"]), "cmd": "worker --name %s --wid $(circus.wid)" % "x"}[k]
+                       "max_retry": rng.choice([1, 3, "x"]), "cmd": "worker --name %s --wid $(circus.wid)" % "x",
+                       # max_age: seconds a worker may live (0 = for ever); `singleton` passes validation with any value and
+                       # is then ignored by Watcher.set_opt (as respawn and max_retry are): `options` shows it unchanged
+                       "max_age": rng.choice([0, 0, 1, 2, 5, True, "1", 1.5]),
+                       "singleton": rng.choice([True, False, 1, "yes"])}[k]
         if "cmd" in opts:
             n = resolve_name(v, props["name"])
             opts["cmd"] = "worker --name %s --wid $(circus.wid)" % (n or "x").replace(" ", "_")
@@ -266,15 +295,27 @@ def gen_request(rng, v, rid, profile):
             props["waiting"] = True
         return base("quit")
     if pick(p.get("ro", 0.14)):
-        cmd = rng.choice(["status", "list", "numprocesses", "numwatchers", "status", "list", "options", "globaloptions", "listen",
-                          "stats", "stats"])
+        cmd = rng.choice(["status", "list", "numprocesses", "numwatchers", "status", "list", "options", "options", "options",
+                          "get", "get", "get", "globaloptions", "listen", "stats", "stats", "dstats", "listsockets"])
         if cmd in ("status", "list", "numprocesses", "stats") and rng.random() < 0.6:
             props["name"] = some_name(rng, v)
             if cmd == "stats" and rng.random() < 0.4:
                 p_ = some_pid(rng, v, resolve_name(v, props["name"]))
                 props["process"] = p_ if isinstance(p_, int) and not isinstance(p_, bool) else 5
         if cmd == "options":
-            props["name"] = some_name(rng, v, bogus=0.3)
+            props["name"] = some_name(rng, v, bogus=0.25)
+            if rng.random() < 0.06:
+                del props["name"]
+        if cmd == "get":
+            props["name"] = some_name(rng, v, bogus=0.2)
+            props["keys"] = some_keys(rng)
+            if rng.random() < 0.08:
+                del props[rng.choice(["name", "keys"])]
+        if cmd == "globaloptions" and rng.random() < 0.65:
+            props["option"] = rng.choice(list(sim.GLOBAL_OPTS) + ["check_delay", "nosuch", "CHECK_DELAY", "", 0, 5, None,
+                                                                  ["check_delay"], {"a": 1}, True, False, 1.5, 0.0, [], {}])
+        if cmd in ("dstats", "listsockets") and rng.random() < 0.25:
+            props[rng.choice(["name", "keys", "x"])] = some_name(rng, v)      # properties these commands do not look at
         return base(cmd)
     # malformed at the message level
     bad = rng.choice([
@@ -550,7 +591,33 @@ def recipe_sequential_reload_death(rng):
     return sc, pre
 
 
-RECIPES = {"sequential_reload_death": recipe_sequential_reload_death, "stopped_worker": recipe_stopped_worker, "children_vanish": recipe_children_vanish, "pattern_subset": recipe_pattern_subset, "signal_veto": recipe_signal_veto, "singleton_set": recipe_singleton_set, "on_demand_stop": recipe_on_demand_stop, "untracked_zombies": recipe_untracked_zombies,
+def recipe_options_observe(rng):
+    """`options` / `get` asked before and after accepted and refused `set` requests, and while a long stop (a worker that
+    ignores the stop signal) holds the exclusive slot: what `set` stored is read back, a refusal leaves it as it was, and
+    the read-only requests are answered at once whatever is in flight"""
+    stubborn = rng.random() < 0.6
+    sc = {"arb": {"warmup_ms": 0}, "behav": [{"term": ["ignore"] if stubborn else ["obey", 150], "kill_lat": 0, "spawn_ms": 1}],
+          "watchers": [_w("a", np=rng.choice([1, 2]), graceful_ms=rng.choice([300, 500])),
+                       _w("B", np=1, priority=-1, singleton=rng.random() < 0.3)]}
+    goods = [{"graceful_timeout": 0.5}, {"warmup_delay": 0.1, "stop_signal": 2}, {"send_hup": True},
+             {"stop_children": True, "numprocesses": 2}, {"respawn": False, "max_retry": 3}, {"graceful_timeout": 0.2, "numprocesses": 1}]
+    bads = [{"numprocesses": "x"}, {"graceful_timeout": 0.3, "warmup_delay": None}, {"stop_signal": 100}, {"bogus": 1},
+            {"uid": "nosuchuser-xyz"}, {"send_hup": 1, "numprocesses": 3}, {"stop_children": "yes"}]
+    good, good2, bad = rng.choice(goods), rng.choice(goods), rng.choice(bads)
+    pre = [["start"]] + [["wake"]] * 4
+    pre += [_req("options", "o0", name=rng.choice(["a", "A"]))]
+    pre += [_req("set", "s1", name="a", options=good), ["wake"], _req("options", "o1", name="a")]
+    pre += [_req("set", "s2", name="a", options=bad), _req("get", "g1", name="a", keys=sorted(set(list(good) + list(bad) + ["numprocesses"])
+                                                                                              & set(OPT_CARRIED)))]
+    pre += [_req(rng.choice(["stop", "stop", "restart"]), "q1", name="a", waiting=True)]
+    pre += [_req("options", "o2", name="a"), _req("set", "s3", name=rng.choice(["a", "B"]), options=good2),
+            _req("get", "g2", name="A", keys=rng.choice([["graceful_timeout", "numprocesses"], ["nosuch"], "numprocesses", None])),
+            ["wake"], _req("options", "o3", name="B"), _req("incr", "i1", name="B"), _req("options", "o4", name="b")]
+    pre += [["wake"]] * rng.choice([1, 3, 6]) + [_req("options", "o5", name="a")]
+    return sc, pre
+
+
+RECIPES = {"options_observe": recipe_options_observe, "sequential_reload_death": recipe_sequential_reload_death, "stopped_worker": recipe_stopped_worker, "children_vanish": recipe_children_vanish, "pattern_subset": recipe_pattern_subset, "signal_veto": recipe_signal_veto, "singleton_set": recipe_singleton_set, "on_demand_stop": recipe_on_demand_stop, "untracked_zombies": recipe_untracked_zombies,
            "topup_start": recipe_topup_start, "reap_veto": recipe_reap_veto}
 
 
@@ -586,8 +653,7 @@ def gen_scenario(rng, nops=None, profile=None):
             sc["ops"].append(op)
             s.k.log = []
             s.apply(op)
-            steps.append({"op": op, "lines": list(s.k.log), "snap": s.snapshot() if not s.blocked else "s blocked",
-                          "slept": s.k.slept})
+            steps.append(s.step_record(op))
             if "o close ctrl" in s.k.log:
                 break                      # the daemon has shut down: nothing after this is meaningful
     finally:
